@@ -429,7 +429,7 @@ func convTypeToTarget(source interface{}, target reflect.Type) (interface{}, err
 			if IsNull(source) {
 				return "", nil
 			}
-			return fmt.Sprintf("%v", source), nil
+			return sprintValue(source), nil
 		}
 		return nil, fmt.Errorf("convTypeToTarget %T not conv to %v", source, target)
 	}
@@ -1022,8 +1022,69 @@ func convToString(v interface{}) string {
 	case *decimal.Big:
 		return n.String()
 	default:
-		return fmt.Sprintf("%v", v)
+		return sprintValue(v)
 	}
+}
+
+// sprintValue formats a composite value with %v. A value that contains itself (a formula can
+// build one: `$a = this`) would send fmt into unbounded recursion and kill the process with a
+// stack overflow that no recover can catch, so it is refused with a panic that Resolve reports
+// as an ordinary evaluation error.
+func sprintValue(v interface{}) string {
+	if containsItself(reflect.ValueOf(v), map[uintptr]bool{}) {
+		panic("cyclic value cannot be converted to a string")
+	}
+	return fmt.Sprintf("%v", v)
+}
+
+func containsItself(rv reflect.Value, onPath map[uintptr]bool) bool {
+	switch rv.Kind() {
+	case reflect.Interface:
+		return !rv.IsNil() && containsItself(rv.Elem(), onPath)
+	case reflect.Ptr, reflect.Map, reflect.Slice:
+		if rv.IsNil() {
+			return false
+		}
+		if _, isNumber := rv.Interface().(*decimal.Big); isNumber {
+			return false
+		}
+		p := rv.Pointer()
+		if onPath[p] {
+			return true
+		}
+		onPath[p] = true
+		defer delete(onPath, p)
+		switch rv.Kind() {
+		case reflect.Ptr:
+			return containsItself(rv.Elem(), onPath)
+		case reflect.Map:
+			iter := rv.MapRange()
+			for iter.Next() {
+				if containsItself(iter.Value(), onPath) {
+					return true
+				}
+			}
+		default:
+			for i := 0; i < rv.Len(); i++ {
+				if containsItself(rv.Index(i), onPath) {
+					return true
+				}
+			}
+		}
+	case reflect.Array:
+		for i := 0; i < rv.Len(); i++ {
+			if containsItself(rv.Index(i), onPath) {
+				return true
+			}
+		}
+	case reflect.Struct:
+		for i := 0; i < rv.NumField(); i++ {
+			if containsItself(rv.Field(i), onPath) {
+				return true
+			}
+		}
+	}
+	return false
 }
 
 func convToNumber(v interface{}) *decimal.Big {
